@@ -78,6 +78,51 @@ def collectV {β : Type} [Inhabited β] [DecidableEq β] (runs : List (RowRunVF 
 def collectF {β : Type} [Inhabited β] [DecidableEq β] (runs : List (RowRunVF α β)) : Flat β :=
   flatten (collectG pendVF (·.2) runs)
 
+/-! #### the element kind made explicit: `table:table-cell` | `table:covered-table-cell` -/
+
+/-- which element a cell event is -/
+inductive CellKind where
+  | cell
+  | covered
+  deriving DecidableEq, Repr
+
+/-- `read_row` with the element kind of every event: the match arm of `read_row` is guarded by
+    `e.name() == "table:table-cell" || e.name() == "table:covered-table-cell"`, so both kinds run the same
+    code — a covered cell is flushed, pended or pushed `repeat` times with whatever content it carries,
+    exactly like an ordinary cell -/
+def readRowK {ε : Type} (pend : ε → Bool) (val : ε → α) : List (CellKind × ε × Nat) → Nat → List α
+  | [], _ => []
+  | (.cell, e, k) :: rest, pending =>
+    List.replicate pending default ++
+      (if pend e then readRowK pend val rest k
+       else List.replicate k (val e) ++ readRowK pend val rest 0)
+  | (.covered, e, k) :: rest, pending =>
+    List.replicate pending default ++
+      (if pend e then readRowK pend val rest k
+       else List.replicate k (val e) ++ readRowK pend val rest 0)
+
+/-- a row run whose cell events carry their element kind -/
+abbrev RowRunK (ε : Type) := Nat × List (CellKind × ε × Nat)
+
+def collectKG {ε : Type} (pend : ε → Bool) (val : ε → α) (runs : List (RowRunK ε)) : List (Nat × List α) :=
+  runs.map fun r => (r.1, readRowK pend val r.2 0)
+
+/-- `read_table` on value-only events with element kinds -/
+def collectK (runs : List (RowRunK α)) : Flat α :=
+  flatten (collectKG (fun v => decide (v = default)) id runs)
+
+/-- `read_table`, the `cells` vector, events = (kind, (value, formula), repeat) -/
+def collectKV {β : Type} [Inhabited β] [DecidableEq β] (runs : List (RowRunK (α × β))) : Flat α :=
+  flatten (collectKG pendVF (·.1) runs)
+
+/-- `read_table`, the `formulas` vector -/
+def collectKF {β : Type} [Inhabited β] [DecidableEq β] (runs : List (RowRunK (α × β))) : Flat β :=
+  flatten (collectKG pendVF (·.2) runs)
+
+/-- forget the element kinds -/
+def eraseKinds {ε : Type} (runs : List (RowRunK ε)) : List (Nat × List (ε × Nat)) :=
+  runs.map fun r => (r.1, r.2.map fun e => (e.2.1, e.2.2))
+
 /-! ### `get_range` -/
 
 /-- `cols.windows(2)` -/
